@@ -524,7 +524,8 @@ func shape(rich bool, sub func(pos int) *xnode) *xnode {
 		if !rich {
 			return &xnode{k: xVar, name: "x"}
 		}
-		return []*xnode{{k: xVar, name: "x"}, {k: xVar, name: "y"}, {k: xLit, lit: "1"}}[nd.Choice(3)]
+		// (x) is an lvalue in C; ((1)) is not
+		return []*xnode{{k: xVar, name: "x"}, {k: xVar, name: "y"}, {k: xLit, lit: "1"}, {k: xVar, name: "x", paren: true}, {k: xLit, lit: "1", paren: true}}[nd.Choice(5)]
 	}
 	switch nd.Choice(8) {
 	case 0:
